@@ -438,14 +438,39 @@ func c12R2(c *Ctx) {
 			return e != nil && e.K == ECall && e.Fn != nil && e.Fn.Name() == "Load" && len(e.Args) == 1 && counter(e.Args[0])
 		}
 		n := 0
-		for _, in := range instrsWhere(df, func(in ssa.Instruction) bool {
-			cl, ok := in.(*ssa.Call)
-			if !ok || len(cl.Call.Args) == 0 || cl.Call.IsInvoke() {
-				return false
+		// the counter operations may sit in debit itself or in an unexported helper it
+		// calls (the CAS loop extracted); a helper's parameters are read as the arguments
+		// of debit's call
+		type actOp struct {
+			in  ssa.Instruction
+			act []*Expr
+		}
+		var ops []actOp
+		for _, g := range scopeFuncs(df) {
+			acts := [][]*Expr{nil}
+			if TopLevel(g) != df {
+				acts = helperActivations(df, TopLevel(g))
 			}
-			fo, _, _ := calleeObj(&cl.Call)
-			return fo != nil && fo.Pkg() != nil && fo.Pkg().Path() == "sync/atomic" && counter(Desc(cl.Call.Args[0]))
-		}) {
+			for _, b := range g.Blocks {
+				for _, in := range b.Instrs {
+					cl, ok := in.(*ssa.Call)
+					if !ok || len(cl.Call.Args) == 0 || cl.Call.IsInvoke() {
+						continue
+					}
+					fo, _, _ := calleeObj(&cl.Call)
+					if fo == nil || fo.Pkg() == nil || fo.Pkg().Path() != "sync/atomic" {
+						continue
+					}
+					for _, act := range acts {
+						if counter(inActivation(Desc(cl.Call.Args[0]), act)) {
+							ops = append(ops, actOp{in, act})
+						}
+					}
+				}
+			}
+		}
+		for _, op := range ops {
+			in, act := op.in, op.act
 			cl := in.(*ssa.Call)
 			fo, _, _ := calleeObj(&cl.Call)
 			key := fmt.Sprintf("%s|debit|counter.%s", R, fo.Name())
@@ -462,7 +487,7 @@ func c12R2(c *Ctx) {
 					c.ok(R, key, instrPos(in), "Add(1) only on the shadow arm")
 				}
 			case "CompareAndSwap":
-				old, nw := Desc(cl.Call.Args[1]), strip(Desc(cl.Call.Args[2]))
+				old, nw := inActivation(Desc(cl.Call.Args[1]), act), strip(inActivation(Desc(cl.Call.Args[2]), act))
 				okArgs := isLoad(old) && nw != nil && nw.K == EBin && nw.Op == token.ADD && isLoad(nw.X) && IsConstInt(1)(nw.Y)
 				ug, tr := c.unguarded(in, []Barrier{OnCmp("used<limit", isLoad, token.GEQ, limit, false)}, df)
 				switch {
